@@ -9,7 +9,7 @@
 //!     res_raw <dirVA> <hex section> [<sub> args…]     (default sub: all)
 //!
 //! names: `i:<id>` = Name::Id, `w:<utf-16 units, 4 hex digits each>` = Name::Wide, `s:<utf-8 hex>` = Name::Str.
-//! Tokens starting with `want=` are for the python oracle and ignored here.
+//! Tokens starting with `want=` (python oracle) or `tree=` (Lean specification) are ignored here.
 use crate::util::*;
 use crate::State;
 use pelite::resources::group::GroupResource;
@@ -129,7 +129,7 @@ fn groups<'a>(g: &Guarded, it: impl Iterator<Item = Result<(Name<'a>, GroupResou
 fn path_of(hexs: &str) -> Vec<u8> { unhex(hexs) }
 
 fn run(g: &Guarded, r: Resources<'_>, a: &[&str]) -> String {
-	let a: Vec<&str> = a.iter().cloned().filter(|x| !x.is_empty() && !x.starts_with("want=")).collect();
+	let a: Vec<&str> = a.iter().cloned().filter(|x| !x.is_empty() && !x.starts_with("want=") && !x.starts_with("tree=")).collect();
 	match (a.get(0).cloned().unwrap_or("all"), a.len()) {
 		("all", _) => format!("fsck={} fmt={} dump={}", match r.fsck() { Ok(()) => "ok".to_string(), Err(e) => format!("err:{}", errname(e)) }, text_s(&format!("{}", r)), dump(g, r)),
 		("dump", 1) => dump(g, r),
